@@ -18,6 +18,10 @@ def main():
     np.seterr(all="ignore")
     from vf.rec import Rec
     rec = Rec(prop, spec)
+    from vf import reach
+    reach_file = out_path + ".reach"
+    os.environ["VERIF_REACH_FILE"] = reach_file
+    reach.install()
     try:
         import dadi  # noqa: F401  (must come from the overlay)
         ov = os.environ.get("VERIF_OVERLAY")
@@ -29,8 +33,11 @@ def main():
     except BaseException as e:  # harness failure => inconclusive, never a verdict
         rec.incon("worker exception in batch %s: %s: %s\n%s" % (
             spec.get("name"), type(e).__name__, e, traceback.format_exc()[-3000:]))
+    reach.flush()
+    res = rec.result()
+    res["functions"] = sorted(reach.read(reach_file))
     with open(out_path, "w") as f:
-        json.dump(rec.result(), f)
+        json.dump(res, f)
 
 
 if __name__ == "__main__":
